@@ -91,7 +91,35 @@ def dump(filters, log=print, timeout=3000):
     else:
         os.rename(tmp, out)
     log(f"[mirsym] dumped MIR of {kept} bodies in {info['secs']}s -> {out}")
+    prune_target()
     return out, info
+
+
+def prune_target(keep=4):
+    """every tree state / filter list leaves its own libsnel_db-<hash>.{rlib,rmeta,d} (about 80 MB) in the shared
+    target directory; keep the newest few, drop the rest (they would be rebuilt on demand)"""
+    import re
+    deps = os.path.join(TARGET, "debug", "deps")
+    groups = {}
+    try:
+        names = os.listdir(deps)
+    except OSError:
+        return
+    for f in names:
+        m = re.match(r"^(?:lib)?snel_db-([0-9a-f]{16})\.", f)
+        if m:
+            full = os.path.join(deps, f)
+            try:
+                groups.setdefault(m.group(1), []).append((os.path.getmtime(full), full))
+            except OSError:
+                pass
+    order = sorted(groups, key=lambda h: max(t for t, _ in groups[h]), reverse=True)
+    for h in order[keep:]:
+        for _t, full in groups[h]:
+            try:
+                os.remove(full)
+            except OSError:
+                pass
 
 
 def find_bodies(dump_dir, needle):
